@@ -3,6 +3,14 @@
 # kind: rapid (default) | exhaustive | plain
 # quick/thorough: checks = total rapid cases over all shards; shards = processes; timeout = seconds per shard
 PARTS = {
+    "C12": [
+        {"test": "FuzzVfC12", "kind": "fuzz",
+         "quick": {"shards": 1, "timeout": 300},
+         "thorough": {"shards": 1, "timeout": 900, "fuzztime": "180s"}},
+        {"test": "TestVfC12Hostile", "inflight": True,
+         "quick": {"checks": 2400, "shards": 4, "timeout": 900},
+         "thorough": {"checks": 200000, "shards": 16, "timeout": 3000}},
+    ],
     "C13": [
         {"test": "TestVfC13Reclaim",
          "quick": {"checks": 1500, "shards": 4, "timeout": 900},
@@ -110,6 +118,17 @@ PARTS = {
 LEVEL = {}  # default: exploration
 
 RULES = {
+    "C12": "(Hostile) rapid-generated node configurations (three routers x sequence-number validator x subscription filters x four "
+           "signature policies x score / gater / peer exchange / test + partial-message extensions x max message size) and 1-10 hostile "
+           "RPCs each (optionally repeated up to 12 times): subscriptions, messages and every control kind with fields from pools of nasty "
+           "values (absent / empty / known / unknown / 64 KiB / binary topics and ids, sequence numbers of 0-12 bytes, junk or truncated "
+           "authors, absent / empty / junk / honest signatures over weird fields, thousands of ids, PRUNE with junk / empty / mismatched "
+           "/ hundreds of peer records and huge back-off, repeated extension handshakes, partial-message fields), from connected peers, "
+           "an unknown peer and the node's own ID; every RPC is passed through the encoder and decoder first. Oracle: no panic in the "
+           "event loop (recover), in the built-in validator (recovering wrapper), in verifyMessageSignature, or anywhere else (process "
+           "crash capture); after every RPC ListPeers answers within 1 s virtual and a fresh message from an honest peer is delivered. "
+           "(Fuzz) arbitrary bytes -> RPC.Unmarshal -> the same node and oracle; quick tier runs the seed corpus, thorough tier 180 s of "
+           "native coverage-guided fuzzing on 16 workers. Non-trivial: the input decodes and reaches a handler. Distinct = case JSON / corpus entry.",
     "C13": "direct-driven gossipsub node with scoring, gater, test and partial-message extensions, peer exchange, tag tracer, automatic "
            "heartbeats and a slow / rejecting validator; one or two remote peers of every protocol version (one optionally a configured "
            "direct peer) plus a bystander; histories (<= 40 ops) of outbound open / close / reset-with-connection-kept / repeated "
@@ -247,6 +266,8 @@ RULES = {
 }
 
 ASSUMPTIONS = {
+    "C12": ["framing (oversized, truncated, zero-length frames on a real stream) is exercised by the network-level part, not here",
+            "native fuzzing cannot be pinned to a seed; the saved input is the reproducible unit"],
     "C13": ["the stub host refuses new streams, so the node's own reopening attempts after a stream reset fail; at most one such attempt is pending per peer, as in the real flow",
             "retention wait: 3 virtual minutes, 12 when the dead-peer back-off table was used (its entries live 10 min + 1 min clean-up)"],
     "C19": ["refused pushes are not observable at the queue, so DROP_RPC events are only checked for not shadowing a SEND (a refused push that is also traced as sent is caught, a refused push traced as nothing is not)"],
@@ -276,6 +297,13 @@ ASSUMPTIONS = {
 HOOK_COMMITS = ["407c3ed", "8f1d1a5"]
 
 META = {
+    "C12": {
+        "text": "Structured fuzzing of the RPC handlers across node configurations with crash and liveness oracles, plus native coverage-guided "
+                "fuzzing of the decode-and-handle path; finds unchecked indexing, nil dereferences, unbounded work and stalls reachable from "
+                "the wire within the generated shapes.",
+        "note": "Panics inside library goroutines that cannot be recovered are captured by the driver from the process output and the in-flight case file.",
+        "technique": "structured property-based fuzzing (rapid) + Go native coverage-guided fuzzing, crash and liveness oracles",
+    },
     "C13": {
         "text": "Stateful property-based testing over stream-event interleavings and RPC mixes with an absence oracle (explicit map list + "
                 "reflection walk + connection-manager protections) after the retention periods; finds missing deletes, never-expiring "
